@@ -43,7 +43,9 @@ def rounding_bound(x, mu, theta, logdet=None, cond=None):
     if cond is None:
         cond = float(np.linalg.cond(theta))
     quad_abs = float(d @ np.abs(theta) @ d)
-    return 64.0 * EPS * (abs(logdet) + n * LOG2PI + (n + 2) * quad_abs + n * cond)
+    mag = np.abs(np.asarray(x, dtype=np.float64)) + np.abs(np.asarray(mu, dtype=np.float64))
+    cancel = float(d @ np.abs(theta) @ mag)       # x - mu is rounded relative to |x|, |mu|, not to the difference
+    return 64.0 * EPS * (abs(logdet) + n * LOG2PI + (n + 2) * quad_abs + 4 * cancel + n * cond)
 
 
 def table_bound(X, mus, thetas):
@@ -54,9 +56,11 @@ def table_bound(X, mus, thetas):
         n = th.shape[0]
         logdet = float(np.linalg.slogdet(th)[1])
         cond = float(np.linalg.cond(th))
-        D = np.abs(X - np.asarray(mu, dtype=np.float64)[None, :])
+        mu_ = np.asarray(mu, dtype=np.float64)
+        D = np.abs(X - mu_[None, :])
         quad_abs = np.sum((D @ np.abs(th)) * D, axis=1)
-        out[:, k] = 64.0 * EPS * (abs(logdet) + n * LOG2PI + (n + 2) * quad_abs + n * cond)
+        cancel = np.sum((D @ np.abs(th)) * (np.abs(X) + np.abs(mu_)[None, :]), axis=1)
+        out[:, k] = 64.0 * EPS * (abs(logdet) + n * LOG2PI + (n + 2) * quad_abs + 4 * cancel + n * cond)
     return out
 
 
